@@ -168,7 +168,7 @@ def run_scripts(ctx, jobs, tag, procs, seen):
 
 
 def run(ctx):
-    ctx.rule = ("script = random interleaving (seeded) of connect/send/close/release/iter/stop/wait-for-timeouts played "
+    ctx.rule = ("script = random interleaving (seeded) of connect/partial-head/send (head with or without the declared body)/body/close/release/iter/stop/wait-for-timeouts played "
                 "against the real serve() in lock-step, configurations from the grid max_connections {0,1,2,3} x listeners "
                 "{1,2} x timeout {0, 60, 0.3 s} x max_content_length {0,1,10,1000}; non-trivial = more clients than "
                 "slots existed, or a socket timeout / a 413 / a shutdown with unfinished connections occurred; distinct by "
@@ -256,21 +256,30 @@ def run(ctx):
                        rp, key="realgate:read-more-than-limit")
             if r["status"] == 413 and not (a[0] == "int" and a[1] > ML):
                 report(ctx, seen, "413 for a request that does not exceed max_content_length", rp)
-    # ---------------------------------------------------------------- TLS: silent before / after the handshake
-    sjobs = [dict(kind="ssl", cfg=dict(max_conn=mc, timeout=T, max_len=10, listeners=1, nmax=6), seed=ctx.rng.randrange(10 ** 6))
-             for (mc, T) in ctx.n([(1, 1.0)], [(1, 1.0), (1, 2.0), (2, 1.0), (2, 1.5)])]
-    for job, res in zip(sjobs, x_c20.run_jobs(sjobs, ctx.scratch(), procs=4)):
+    # ---------------------------------------------------------------- silence in every phase of a request (real application)
+    PLAIN = ["nothing", "in-head", "head-no-body:PUT", "head-no-body:PROPFIND", "partial-body:REPORT"]
+    PLAIN2 = ["head-no-body:MKCALENDAR", "partial-body:PUT", "head-no-body:PROPPATCH", "head-no-body:REPORT", "in-head",
+              "partial-body:MKCOL"]
+    TLS = ["tcp-no-handshake", "after-handshake", "head-no-body:PUT"]
+    variants = ctx.n([(1, 1.0, False, PLAIN), (1, 1.0, True, TLS)],
+                     [(1, 1.0, False, PLAIN), (1, 1.0, True, TLS), (2, 1.5, False, PLAIN2), (2, 1.0, True, TLS + ["partial-body:REPORT"]),
+                      (1, 2.0, False, PLAIN2), (1, 2.0, True, TLS)])
+    sjobs = [dict(kind="silent", cfg=dict(max_conn=mc, timeout=T, max_len=1000, listeners=1, nmax=6, ssl=tls), phases=ph,
+                  seed=ctx.rng.randrange(10 ** 6)) for (mc, T, tls, ph) in variants]
+    for job, res in zip(sjobs, x_c20.run_jobs(sjobs, ctx.scratch(), procs=len(sjobs))):
         if res.get("driver_error"):
-            ctx.obligation("driver-ran:ssl", False, res.get("inconclusive", ""))
+            ctx.obligation("driver-ran:silent", False, res.get("inconclusive", ""))
             continue
-        ctx.case(("ssl", json.dumps(job["cfg"], sort_keys=True)), nontrivial=True,
-                 sample=dict(mode="ssl", cfg=job["cfg"], steps=res.get("steps")))
-        ctx.count("ssl:scenarios")
+        for ph in job["phases"]:
+            ctx.case(("silent", ph, json.dumps(job["cfg"], sort_keys=True)), nontrivial=True)
+            ctx.count("silent-phase:%s%s" % (ph, ":tls" if job["cfg"]["ssl"] else ""))
+        if len(ctx.samples) < 6:
+            ctx.samples.append(dict(mode="silent-phases", cfg=job["cfg"], steps=res.get("steps")))
         if res.get("inconclusive"):
-            ctx.notes.append("inconclusive ssl scenario: %s" % res["inconclusive"][:200])
+            ctx.notes.append("inconclusive silent-phase scenario: %s" % res["inconclusive"][:200])
         for f in res.get("fail", []):
-            report(ctx, seen, f.get("what"), dict(kind="ssl", cfg=job["cfg"], seed=job["seed"], failures=res.get("fail"),
-                                                  steps=res.get("steps")))
+            report(ctx, seen, f.get("what"), dict(kind="silent", cfg=job["cfg"], phases=job["phases"], seed=job["seed"],
+                                                  failures=res.get("fail"), steps=res.get("steps")))
     # ---------------------------------------------------------------- regression of the fixed negative-length finding
     # over the socket, real do_PUT: a negative or oversized declared length must not make the handler read the body
     nres = x_c20.run_jobs([dict(kind="neglen", declared="-1", body=300000, max_len=1000),
@@ -298,10 +307,12 @@ def run(ctx):
 
 def replay(ctx, path):
     rp = json.load(open(path))["replay"]
-    if rp.get("kind") in ("realgate", "ssl", "neglen"):
+    if rp.get("kind") in ("realgate", "silent", "neglen"):
         job = dict(rp)
         job.pop("result", None)
         job.pop("witness", None)
+        job.pop("failures", None)
+        job.pop("steps", None)
         res = x_c20.run_jobs([job], ctx.scratch(), procs=1)[0]
         print(json.dumps(res, indent=1)[:6000])
         return 1 if res.get("fail") else 0
